@@ -179,6 +179,12 @@ func runTransplant(c transplantCase, verbose bool) {
 }
 
 func partTransplant() (cases int) {
+	if run.HasViolations() {
+		// the relocation matrix already reports unbound files: the harness' own re-signing (which
+		// follows the documented contexts) cannot be told from the implementation's then
+		run.Set("transplant_skipped", "violations reported by the relocation matrix")
+		return 0
+	}
 	cfg := bindConfigs[1]
 	for _, h := range repHistories() {
 		if h.name == "one-key-each" {
